@@ -44,7 +44,9 @@ def combine_patches(diffs):
                 p.diff = combine_patches(p.diff + d.diff)
         else:
             newdiffs.append(d)
-    return sorted(newdiffs, key=lambda x: x.key)
+    # Insertions at a key come before the patch or removal of the item at
+    # that key (the order the diff format prescribes)
+    return sorted(newdiffs, key=lambda x: (x.key, x.op != DiffOp.ADDRANGE))
 
 
 def adjust_patch_level(target_path, common_path, diff):
